@@ -168,7 +168,10 @@ claimed = {
     'C01': ('proof', 'Coq theorems C01_refines_map / C01_invariant: every history of get/insert/remove/empty/clear over keys of one '
             'fixed length 1..8 returns exactly what an association-list map returns (including leaf identity), never goes out of '
             'bounds, and leaves a well-formed tree holding exactly the map\'s entries; machine-checked refutation for byte keys '
-            'sharing more than 7 bytes (K1). The model is tied to all three index classes and both key kinds by differential runs '
+            'sharing more than 7 bytes (K1). C01g_*: the same refinement and invariant for byte-string keys of ARBITRARY, MIXED lengths, under two '
+            'executable hypotheses evaluated along the history (prefix-freedom of the operation\'s key against the stored keys; the 7-byte '
+            'prefix capacity is not exceeded at a leaf split or a collapse), of which fixed-length histories and all histories over keys of '
+            'at most 8 bytes are proved instances, and both of which are proved necessary by witnesses. The model is tied to all three index classes and both key kinds by differential runs '
             'with full tree-shape comparison after every operation. C01b: the key-prefix word arithmetic (length, shared length, cut, prepend, '
             'construction, indexing; key_prefix and key_prefix_snapshot) is regenerated from art_internal_impl.hpp on every run, with the '
             'header\'s asserts as side conditions, and bridged by kernel-checked lemmas to the byte-list functions of the model.', '5 C01',
@@ -176,12 +179,12 @@ claimed = {
             'Coq refinement proof (model -> finite map) + differential correspondence of the extracted model with the implementation'),
     'C02': ('proof', 'Coq theorems: the leaf order of a well-formed tree is the byte-wise key order; scan, scan_from and scan_range '
             'return exactly the entries of the requested interval in order, truncated at the visitor\'s halting call, for every tree, '
-            'bound and direction; the pinned tree\'s seek is refuted by a machine-checked witness ({0,1,256}, scan_from 5). Tied by '
+            'bound and direction (C02g_*: also for mixed-length prefix-free byte keys, the near bound prefix-free w.r.t. the stored keys); the pinned tree\'s seek is refuted by a machine-checked witness ({0,1,256}, scan_from 5). Tied by '
             'differential runs on all classes / key kinds with bounds at every fall-off position.', '5 C02', ART_NOTE,
             'Coq proof of iterator/seek/scan against interval lists + differential correspondence'),
     'C10': ('proof', 'Coq theorems: two well-formed trees with the same entries have the same shape (history independence), each node is '
             'in the smallest class fitting its fan-out, the incrementally maintained leaf/inode counts and memory use equal the '
-            'functions of the tree after every history, counters are monotone, clear zeroes them. Tied by comparing every statistics '
+            'functions of the tree after every history, counters are monotone, clear zeroes them (C10g_*: canonical shape and counts also for mixed-length byte keys). Tied by comparing every statistics '
             'getter and the canonical dump after every operation.', '5 C10', ART_NOTE,
             'Coq proof (canonical shape uniqueness, statistics = tree functions) + differential correspondence'),
     'C07': ('proof', 'Coq theorems over every event sequence the lock acceptor accepts (any number of threads, any length): at most one '
